@@ -215,6 +215,14 @@ func c05RunWalk(t *testing.T, st *vstat.Stats, w c05Walk) (v *viol) {
 				v = violf("node:"+jv.Key, "step %d of %v: %s", si, hist, jv.What)
 				return
 			}
+			if o.Phase == phReady {
+				// the round is signing-ready: what follows belongs to the signing phase, whose node-side housekeeping
+				// (restart after collection / on cancelled batches) the C05 driver does not model; C06 covers it
+				if perr == nil {
+					o = post
+				}
+				continue
+			}
 			// conformance of the FSM-level driver with the node
 			var dres fxResult
 			if _, rerr := state_machines.FromDump(drv); rerr != nil {
@@ -236,7 +244,7 @@ func c05RunWalk(t *testing.T, st *vstat.Stats, w c05Walk) (v *viol) {
 				a, _ := normaliseDump(nodeDump)
 				b, _ := normaliseDump(drv)
 				if a != b {
-					v = violf("driver-node-divergence", "step %d (%s): node's persisted round differs from the FSM-level driver's: node %s | driver %s", si, e, clip(a, 600), clip(b, 600))
+					v = violf("driver-node-divergence", "step %d (%s): node's persisted round differs from the FSM-level driver's (%s): node %s | driver %s", si, e, jsonDiff(a, b), clip(a, 300), clip(b, 300))
 					return
 				}
 			}
@@ -275,3 +283,37 @@ func rawStateName(n *world.Node) string {
 
 var _ = bytes.Equal
 var _ = requests.DefaultRequest{}
+
+// jsonDiff lists the paths at which two JSON documents differ.
+func jsonDiff(a, b string) string {
+	var x, y any
+	_ = json.Unmarshal([]byte(a), &x)
+	_ = json.Unmarshal([]byte(b), &y)
+	var out []string
+	var walk func(p string, u, v any)
+	walk = func(p string, u, v any) {
+		if len(out) > 6 {
+			return
+		}
+		um, uok := u.(map[string]any)
+		vm, vok := v.(map[string]any)
+		if uok && vok {
+			for k := range um {
+				walk(p+"/"+k, um[k], vm[k])
+			}
+			for k := range vm {
+				if _, ok := um[k]; !ok {
+					walk(p+"/"+k, nil, vm[k])
+				}
+			}
+			return
+		}
+		ub, _ := json.Marshal(u)
+		vb, _ := json.Marshal(v)
+		if string(ub) != string(vb) {
+			out = append(out, fmt.Sprintf("%s: %s vs %s", p, clip(string(ub), 60), clip(string(vb), 60)))
+		}
+	}
+	walk("", x, y)
+	return strings.Join(out, "; ")
+}
